@@ -624,6 +624,7 @@ fn e2(tier: Tier, which: u64, ctx: &mut Ctx) {
 		horizon: 400,
 		max_spin_rounds: 8,
 		record_sites: true,
+		..Default::default()
 	};
 	type Obs = (Vec<(u64, f64)>, Vec<bool>);
 	let mut body = |prefix: &[u8]| -> (sched::RunResult, Obs) {
